@@ -15,13 +15,12 @@ variable (s : SchemaD) (fx : Fixes) (d : Doc)
 theorem freshM_bff_gp (fuel : Nat) (heff : EFfM s fx d fuel) (me : Bool) (ssid : Nat) (fm : FMap)
     (fr : String) (c : OCtx) (hc : CI s d c) (h1 : EntOK (fun _ e => Ent s d e) fm)
     (hfm : ∀ sels p rn e, SelSet d ssid sels → Adm s d ssid p → CollD s p sels rn e → e ∈ AL.getD fm rn [])
-    (hap : Apart d ssid fr)
     (hcr : (withFreshCmp (betweenFieldsAndFragmentM s fx fuel me ssid fm fr) c).2.crash = none) :
     GPM s d c (withFreshCmp (betweenFieldsAndFragmentM s fx fuel me ssid fm fr) c)
       (fun M => FCov d M me ssid fr) := by
   unfold withFreshCmp at hcr ⊢
   simp only at hcr ⊢
-  obtain ⟨hin, g⟩ := heff me ssid fm fr { c with cmp := [] } (hc.cmp _) h1 hfm hap (fun _ h => nomatch h) hcr
+  obtain ⟨hin, g⟩ := heff me ssid fm fr { c with cmp := [] } (hc.cmp _) h1 hfm (fun _ h => nomatch h) hcr
   have g1 : GPM s d c (betweenFieldsAndFragmentM s fx fuel me ssid fm fr { c with cmp := [] }) _ :=
     g.pre (c := c) rfl (fun k hk => hk) (fun _ M _ _ k hk => Or.inl hk)
   have g2 := g1.post (c' := { (betweenFieldsAndFragmentM s fx fuel me ssid fm fr { c with cmp := [] }).2 with cmp := c.cmp }) rfl
@@ -33,7 +32,7 @@ theorem freshM_bff_gp (fuel : Nat) (heff : EFfM s fx d fuel) (me : Bool) (ssid :
 theorem stepM_ess (h7 : fx.v7 = true) (hpa : ParentsAgree s d) (hw : WfIds d) (fuel : Nat) (hecb : ECbM s fx d fuel)
     (heff : EFfM s fx d fuel) (hefr : EFrM s fx d fuel) : ESsM s fx d (fuel + 1) := by
   obtain ⟨_, _, sff, sfr, _⟩ := searchM_sound s fx d h7 fuel
-  intro me p1 id1 sels1 p2 id2 sels2 c hc s1 a1 s2 a2 nb1 nb2
+  intro me p1 id1 sels1 p2 id2 sels2 c hc s1 a1 s2 a2
   simp only [betweenSubselectionsM]
   obtain ⟨x1, x2, _⟩ := ff_set s d hc s1 a1
   obtain ⟨p1', xa, xe⟩ := ff_eq s d p1 id1 sels1 c hc.cache a1
@@ -87,12 +86,12 @@ theorem stepM_ess (h7 : fx.v7 = true) (hpa : ParentsAgree s d) (hw : WfIds d) (f
   have g2 := sumLoop_gpM fra (fun fr c => withFreshCmp (betweenFieldsAndFragmentM s fx fuel me id2 fmb fr) c) (CI s d)
     (fun fr M => FCov d M me id2 fr)
     (fun fr _ c hc => ⟨withFreshCmp_spec s d _ True (fun c hc => ⟨(sff me id2 fmb fr c hc y2).1, fun _ => trivial⟩) c hc |>.1,
-      fun h => freshM_bff_gp s fx d fuel heff me id2 fmb fr c hc y2 hfm2 (apart_of_notBody nb2 fr) h⟩)
+      fun h => freshM_bff_gp s fx d fuel heff me id2 fmb fr c hc y2 hfm2 h⟩)
     _ ci1 g3.crash
   have g1 := sumLoop_gpM frb (fun fr c => withFreshCmp (betweenFieldsAndFragmentM s fx fuel me id1 fma fr) c) (CI s d)
     (fun fr M => FCov d M me id1 fr)
     (fun fr _ c hc => ⟨withFreshCmp_spec s d _ True (fun c hc => ⟨(sff me id1 fma fr c hc x2).1, fun _ => trivial⟩) c hc |>.1,
-      fun h => freshM_bff_gp s fx d fuel heff me id1 fma fr c hc x2 hfm1 (apart_of_notBody nb1 fr) h⟩)
+      fun h => freshM_bff_gp s fx d fuel heff me id1 fma fr c hc x2 hfm1 h⟩)
     _ ci0 g2.crash
   have g0 := hecb me fma fmb cb y1 x2 y2 g1.crash
   have hpc : keysM cb = keysM c := by rw [yfk, xfk]
@@ -106,8 +105,7 @@ theorem stepM_ess (h7 : fx.v7 = true) (hpa : ParentsAgree s d) (hw : WfIds d) (f
     fun g1 g2 hg1 hg2 => r3 g1 (xs g1 hg1) g2 (ys g2 hg2)⟩
 
 /-- **postconditions of the whole search**, any fuel -/
-theorem postM_all (h7 : fx.v7 = true) (hpa : ParentsAgree s d) (hw : WfIds d)
-    (hnb : ∀ e, Ent s d e → e.hasSub = true → NotBody d e.ssid) : ∀ fuel,
+theorem postM_all (h7 : fx.v7 = true) (hpa : ParentsAgree s d) (hw : WfIds d) : ∀ fuel,
     EFindM s fx d fuel ∧ ECbM s fx d fuel ∧ EFrM s fx d fuel ∧ ESsM s fx d fuel ∧ EFfM s fx d fuel := by
   intro fuel
   induction fuel with
@@ -116,12 +114,12 @@ theorem postM_all (h7 : fx.v7 = true) (hpa : ParentsAgree s d) (hw : WfIds d)
     · intro pme f1 f2 c _ _ _ h; simp [findConflictM] at h
     · intro me fm1 fm2 c _ _ _ h; simp [conflictsBetweenM] at h
     · intro me of1 of2 c _ h; simp [betweenFragmentsM] at h
-    · intro me p1 id1 sels1 p2 id2 sels2 c _ _ _ _ _ _ _ h; simp [betweenSubselectionsM] at h
-    · intro me ssid fm name c _ _ _ _ _ h; simp [betweenFieldsAndFragmentM] at h
+    · intro me p1 id1 sels1 p2 id2 sels2 c _ _ _ _ _ h; simp [betweenSubselectionsM] at h
+    · intro me ssid fm name c _ _ _ _ h; simp [betweenFieldsAndFragmentM] at h
   | succ fuel ih =>
     obtain ⟨i1, i2, i3, i4, i5⟩ := ih
     obtain ⟨j1, _, _, j4, _⟩ := searchM_sound s fx d h7 fuel
-    exact ⟨stepM_efind s fx d hnb fuel i4, stepM_ecb s fx d fuel j1 i1, stepM_efr s fx d h7 hpa fuel j4 i2 i3,
+    exact ⟨stepM_efind s fx d fuel i4, stepM_ecb s fx d fuel j1 i1, stepM_efr s fx d h7 hpa fuel j4 i2 i3,
       stepM_ess s fx d h7 hpa hw fuel i2 i5 i3, stepM_eff s fx d h7 hpa fuel i2 i5⟩
 
 end
